@@ -143,6 +143,8 @@ type runner struct {
 	ended                 bool
 	gates                 map[string]int
 	gateHook              func(point string, ids ...int)
+	mux                   *gldap.Mux
+	lateRouteDone         bool
 	readTimeout           time.Duration
 	kept                  []keptReq // requests the application keeps after their handlers have returned (an audit queue, say)
 	t0                    time.Time
@@ -249,11 +251,40 @@ func (r *runner) waitGate(point string, n int) {
 	}
 }
 
+// at most two second periods per scenario (and hx's limit per process): a scenario in which events really are missing
+// must still end before the watchdog of its worker process takes it for a hang
+var scenPatience int32
+
 func patienceIf(first bool) time.Duration {
-	if !first {
+	if !first || atomic.LoadInt32(&scenPatience) >= 2 {
 		return 0
 	}
-	return slowBudget.Patience()
+	d := slowBudget.Patience()
+	if d > 0 {
+		atomic.AddInt32(&scenPatience, 1)
+	}
+	return d
+}
+
+// lateRoute: the application registers one more route while a handler is blocked (once per scenario).  The call is
+// made from a goroutine of its own - on a mux that makes registration wait for running handlers it would not return -
+// and has returned long before the frame that follows it is read.  The route's handler is the scenario's handler.
+func (r *runner) lateRoute() {
+	r.mu.Lock()
+	held := false
+	for _, p := range r.plans {
+		if p.hold && r.started[p.c][p.i] && !r.relsd[p.c][p.i] {
+			held = true
+		}
+	}
+	if !held || r.lateRouteDone || r.mux == nil {
+		r.mu.Unlock()
+		return
+	}
+	r.lateRouteDone = true
+	r.mu.Unlock()
+	go func() { _ = r.mux.Bind(r.handler) }()
+	time.Sleep(3 * time.Millisecond)
 }
 
 // waitStopCancelled waits (bounded) until a Stop call has passed its cancellation point or has returned
@@ -786,6 +817,9 @@ func (r *runner) step(e sEvent) {
 		if cl == nil || cl.conn == nil {
 			return
 		}
+		if r.scen.Cfg["late_route"] == "1" {
+			r.lateRoute()
+		}
 		_ = cl.conn.SendRaw(r.planFrame(e))
 		if r.scen.Cfg["wait_write_blocked"] == "1" && cl.isNoRead() {
 			// let the handler of this request get as far as it can: inside Write, blocked, holding the connection's write lock
@@ -991,6 +1025,7 @@ func runScenario(sc *sScenario, out *hx.Out, seed int64, tlsSrv, tlsCli *tls.Con
 		stopRet: map[string]chan struct{}{}, seed: seed, gates: map[string]int{}}
 	r.cond = sync.NewCond(&r.mu)
 	r.t0 = time.Now()
+	atomic.StoreInt32(&scenPatience, 0)
 	if ps := sc.Cfg["procs"]; ps != "" {
 		// one P: a goroutine that has just been started does not run until its creator blocks - the schedule in which
 		// "spawn, then go on without blocking" orderings show
@@ -1033,6 +1068,7 @@ func runScenario(sc *sScenario, out *hx.Out, seed int64, tlsSrv, tlsCli *tls.Con
 	r.ocHold = sc.Cfg["onclose_hold"] == "1"
 	mux, _ := gldap.NewMux()
 	_ = mux.DefaultRoute(r.handler)
+	r.mux = mux
 	if sc.Cfg["unbind_route"] == "1" {
 		_ = mux.Unbind(func(w *gldap.ResponseWriter, req *gldap.Request) {
 			i, c := 0, ""
@@ -1505,7 +1541,7 @@ func superviseChild(bin string, scens [][]byte, outPath string, w int) error {
 				if l == "DONE" {
 					finished = true
 				}
-			case <-time.After(60 * time.Second):
+			case <-time.After(120 * time.Second):
 				hang = true
 				_ = cmd.Process.Kill()
 				break loop
